@@ -575,7 +575,33 @@ def get_params_from_pval_double_ended(ip, coords, p_val=None, p_cov=None):
                 axis="time",
             ),
         )
-        # sigma2_tafw_tabw
+        # The losses of all upstream (forward) or downstream (backward) splices
+        # are summed. The variance of that sum includes the covariance between
+        # the splices, and the forward and backward sums are correlated too.
+        if ip.nta:
+            x = params["x"].values
+            ta_x = params["trans_att"].values
+            mask_fw = (x[:, None] >= ta_x[None, :]).astype(float)
+            mask_bw = (x[:, None] < ta_x[None, :]).astype(float)
+            itaf = np.asarray(ip.taf).reshape((ip.nt, ip.nta))
+            itab = np.asarray(ip.tab).reshape((ip.nt, ip.nta))
+            cov_ff = p_cov[itaf[:, :, None], itaf[:, None, :]]
+            cov_bb = p_cov[itab[:, :, None], itab[:, None, :]]
+            cov_fb = p_cov[itaf[:, :, None], itab[:, None, :]]
+            params["talpha_fw_full"] = (
+                ("x", "time"),
+                np.einsum("xk,tkl,xl->xt", mask_fw, cov_ff, mask_fw),
+            )
+            params["talpha_bw_full"] = (
+                ("x", "time"),
+                np.einsum("xk,tkl,xl->xt", mask_bw, cov_bb, mask_bw),
+            )
+            params["tafw_tabw"] = (
+                ("x", "time"),
+                np.einsum("xk,tkl,xl->xt", mask_fw, cov_fb, mask_bw),
+            )
+        else:
+            params["tafw_tabw"] = (("x", "time"), np.zeros((ip.nx, ip.nt)))
     return params
 
 
@@ -654,6 +680,17 @@ def get_params_from_pval_single_ended(
             axis="",
         ),
     )
+    if ip.nta > 0:
+        # variance of the sum of the losses of all upstream splices
+        mask_fw = (
+            params["x"].values[:, None] >= params["trans_att"].values[None, :]
+        ).astype(float)
+        itaf = np.asarray(ip.taf)
+        cov_ff = p_cov[itaf[:, :, None], itaf[:, None, :]]
+        param_covs["talpha_fw_full"] = (
+            ("x", "time"),
+            np.einsum("xk,tkl,xl->xt", mask_fw, cov_ff, mask_fw),
+        )
     param_covs["gamma_c"] = (("time",), p_cov[np.ix_(ip.gamma, ip.c)][0, :])
     param_covs["tafw_gamma"] = (
         ("x", "time"),
